@@ -8,9 +8,13 @@ import vshape
 ALL_TREE_TAGS = {"I", "S", "D", "MIN", "MAX", "SIZE", "ALL", "BWD", "TOPK", "BOTK", "RNG", "PFX"}
 NODE_TAGS = {"N4S", "N4I", "N4G", "N4P", "N4L", "N4R", "N4C", "N4D", "N16S", "N16I", "NADD", "NDEL", "NFIND", "NPROBE", "NENUM", "NDUMP", "NRAW"}
 
-# families: (family, files_quick, files_thorough, nops, histories_per_file)
+# families: (family, files_quick, files_thorough, nops, histories_per_file[, nops_thorough, histories_per_file_thorough])
+# family closure (go/cmd/harness/gen_closure.go): one small key universe per file index, explored exhaustively over the
+# implementation's raw states; nops = depth bound, histories_per_file = state bound (0: the generator's defaults, 4000 and
+# 1500 for the collation universe, which does not close).  Depth 16 closes the other five universes (they need 11..15).
+# closure:shape / closure:map write only the observations C11 / C01 compare (the extracted model is the slow side).
 PROPS = {
-    "C01": dict(title="exact key->value map", families=[("tree:map", 16, 160, 160, 22)],
+    "C01": dict(title="exact key->value map", families=[("tree:map", 16, 160, 160, 22), ("closure:map", 6, 6, 8, 0, 16, 0)],
                 corr={"I", "S", "D"}, oracle={"I", "S", "D"}, theorem="Properties/C01.v",
                 corpus=["D1", "D2"]),
     "C02": dict(title="iteration complete, duplicate-free, sorted", families=[("tree:iter", 16, 160, 120, 22)],
@@ -25,13 +29,13 @@ PROPS = {
                 corr={"SIZE"}, oracle={"SIZE", "ALL"}, theorem="Properties/C06.v", corpus=["D3"]),
     "C07": dict(title="numeric key encodings", families=[("codec", 4, 40, 0, 0)],
                 corr={"ENC"}, oracle=set(), theorem="Properties/C07.v", need386=True, special="codec"),
-    "C08": dict(title="collation trees", families=[("tree:full:coll", 12, 120, 110, 14)],
-                corr=ALL_TREE_TAGS - {"RNG"}, oracle=ALL_TREE_TAGS - {"RNG"}, theorem="Properties/C08.v", opts=["-buf"]),
+    "C08": dict(title="collation trees", families=[("tree:full:coll", 20, 160, 110, 14)],
+                corr=ALL_TREE_TAGS - {"RNG"}, oracle=ALL_TREE_TAGS - {"RNG"}, theorem="Properties/C08.v", opts=["-buf"], side="C08"),
     "C09": dict(title="compound trees", families=[("tree:full:comp", 12, 120, 120, 20), ("codec", 2, 20, 0, 0)],
                 corr=ALL_TREE_TAGS | {"ENC"}, oracle=ALL_TREE_TAGS - {"PFX"}, theorem="Properties/C09.v"),
     "C10": dict(title="inner node tables", families=[("node4", 3, 12, 0, 0), ("node16", 3, 12, 0, 0), ("nodeseq", 8, 80, 0, 0)],
                 corr=NODE_TAGS, oracle=set(), theorem="Properties/C10.v", need386=True, special="node", corpus=["D11"]),
-    "C11": dict(title="index well-formed", families=[("tree:shape", 16, 160, 90, 18)],
+    "C11": dict(title="index well-formed", families=[("tree:shape", 16, 160, 90, 18), ("closure:shape", 6, 6, 16, 0, 20, 12000)],
                 corr={"DUMP"}, oracle={"SIZE"}, theorem="Properties/C11.v", special="shape", corpus=["D10"]),
     # nodeseq: the bare node handle with NRAW lines = the raw node of Model/Pool.v (every slot) against the real node
     "C12": dict(title="recycled nodes", families=[("multi", 12, 120, 110, 4), ("nodeseq", 3, 30, 0, 0)],
@@ -431,8 +435,11 @@ def run_property(ctx):
     opts = cfg.get("opts", [])
     tot_all = {}
     gen_stats = {}
-    for (fam, nq, nt, nops, hpf) in cfg["families"]:
+    for famspec in cfg["families"]:
+        fam, nq, nt, nops, hpf = famspec[:5]
         n = nq if ctx.tier == "quick" else nt
+        if ctx.tier != "quick" and len(famspec) > 5:
+            nops, hpf = famspec[5], (famspec[6] if len(famspec) > 6 else hpf)
         outdir = os.path.join(ctx.work, fam.replace(":", "_"))
         gen_stats[fam] = gen_family(ctx, fam, n, nops, hpf, outdir)
         files = sorted(glob.glob(os.path.join(outdir, "*.cmds")))
@@ -456,7 +463,8 @@ def run_property(ctx):
             extra = fn(ctx) or {}
     if ctx.tier == "thorough":
         extra.update(coqchk_leg(ctx))
-    all_files = sorted(glob.glob(os.path.join(ctx.work, "*", "*.cmds")))
+    # (the kernel-evaluated sample stays on the random histories: the closure files sort last)
+    all_files = sorted(glob.glob(os.path.join(ctx.work, "*", "*.cmds")), key=lambda f: ("/closure" in f, f))
     extra.update(coq_eval(ctx, [f for f in all_files if "_386" not in f and "keval_" not in f]))
     proof = proof_leg(ctx)
     coverage = {
@@ -475,6 +483,19 @@ def run_property(ctx):
                        "+ independent property oracle used to search for failing inputs.",
         "exhaustive": False,
     }
+    cl = {}
+    for fam, gs in gen_stats.items():
+        if fam.split(":")[0] == "closure":
+            cl.update(gs.get("closure") or {})
+    if cl:
+        # exhaustive for their bound: every raw state of the implementation reachable in the universe within `depth`
+        # (all of them when complete), and from every such state every Insert/Delete of the universe + the overwrite probes
+        coverage["closed_universes"] = {
+            name: {"states": u.get("closure_states"), "transitions": u.get("closure_transitions"), "depth": u.get("closure_depth"),
+                   "complete": u.get("closure_complete"), "profile": u.get("profile"), "overwrite_probes": u.get("overwrite_probes"),
+                   "depth_bound": u.get("depth_bound"), "state_bound": u.get("state_bound"),
+                   "max_raw_states_for_one_key_set": u.get("max_raw_states_for_one_key_set")}
+            for name, u in sorted(cl.items())}
     coverage.update(extra)
     coverage.update(ctx.stats)
     assumptions = [
